@@ -514,6 +514,10 @@ package parse
 // C04: precedence climbing. parseExprPrec(min) parses an operand for a position in which only operators of precedence
 // >= min may be applied at the top level.
 //@ func parse.(*Tree).parseExprPrec
+// C14: inside delimiters a raw next() / peek() (one that does not skip blanks) never meets a blank - except where a
+// number literal looks for its fraction point (tokens that can merge)
+//@   at? "t.next()" nows: !isWS(tokAt(t, tcur(t)))
+//@   at? "t.peek()" nows: !isWS(tokAt(t, tcur(t))) || incase("tokenNumber")
 //@   requires tinv(t)
 //@   ensures wf: tinv(t) && tcur(t) >= old(tcur(t))
 //@   ensures bal: err == nil ==> len(t.blocks) == old(len(t.blocks))
@@ -521,6 +525,10 @@ package parse
 //@   ensures ok: err == nil ==> good(r0) && tcur(t) > old(tcur(t))
 
 //@ func parse.(*Tree).parseInnerExpr
+// C14: inside delimiters a raw next() / peek() (one that does not skip blanks) never meets a blank - except where a
+// number literal looks for its fraction point (tokens that can merge)
+//@   at? "t.next()" nows: !isWS(tokAt(t, tcur(t)))
+//@   at? "t.peek()" nows: !isWS(tokAt(t, tcur(t))) || incase("tokenNumber")
 // C04: the operand of a unary operator extends over the operators that bind tighter than it
 //@   at "t.parseExprPrec(op.precedence)" operand: op == unaryOperators[tok.value]
 // C20: a literal, a name, a unary operator, a group, a hash or an array carries the position of its first token
@@ -567,6 +575,10 @@ package parse
 // The conditional binds loosest: in an operand position (min > 0) its '?' is left to the caller, so its condition is
 // the whole preceding expression.
 //@ func parse.(*Tree).parseOuterExprPrec
+// C14: inside delimiters a raw next() / peek() (one that does not skip blanks) never meets a blank - except where a
+// number literal looks for its fraction point (tokens that can merge)
+//@   at? "t.next()" nows: !isWS(tokAt(t, tcur(t)))
+//@   at? "t.peek()" nows: !isWS(tokAt(t, tcur(t))) || incase("tokenNumber")
 //@   at "t.parseExprPrec(next)" climb: op.precedence >= min && next == ite(op.assoc == opLeftAssoc, op.precedence + 1, op.precedence) && op == binaryOperators[nt.value]
 //@   at "t.parseRightTestOperand(nil)" test: op.precedence >= min && (op.op == OpBinaryIs || op.op == OpBinaryIsNot)
 //@   at "t.parseOuterExprPrec(NewBinaryExpr(expr, op.Operator(), right, expr.Start()), min)" cont: op.precedence >= min
@@ -580,6 +592,10 @@ package parse
 //@   ensures ok: err == nil ==> good(r0)
 
 //@ func parse.(*Tree).parseRightTestOperand
+// C14: inside delimiters a raw next() / peek() (one that does not skip blanks) never meets a blank - except where a
+// number literal looks for its fraction point (tokens that can merge)
+//@   at? "t.next()" nows: !isWS(tokAt(t, tcur(t)))
+//@   at? "t.peek()" nows: !isWS(tokAt(t, tcur(t))) || incase("tokenNumber")
 //@   requires tinv(t)
 //@   ensures wf: tinv(t) && tcur(t) >= old(tcur(t))
 //@   ensures bal: err == nil ==> len(t.blocks) == old(len(t.blocks))
@@ -587,6 +603,10 @@ package parse
 //@   ensures ok: err == nil ==> r0 != nil && tcur(t) > old(tcur(t))
 
 //@ func parse.(*Tree).parseFunc
+// C14: inside delimiters a raw next() / peek() (one that does not skip blanks) never meets a blank - except where a
+// number literal looks for its fraction point (tokens that can merge)
+//@   at? "t.next()" nows: !isWS(tokAt(t, tcur(t)))
+//@   at? "t.peek()" nows: !isWS(tokAt(t, tcur(t))) || incase("tokenNumber")
 // C20: a call carries the position of the function name
 //@   ensures anchor: err == nil ==> istype(r0, "*FuncExpr") && unbox(r0, "*FuncExpr").Pos == old(name.Pos)
 //@   requires tinv(t) && name != nil
@@ -616,6 +636,10 @@ package parse
 //@   ensures eof: err == nil && r0 == nil ==> tokAt(t, tcur(t) - 1).tokenType == tokenEOF
 
 //@ func parse.(*Tree).parseTag
+// C14: inside delimiters a raw next() / peek() (one that does not skip blanks) never meets a blank - except where a
+// number literal looks for its fraction point (tokens that can merge)
+//@   at? "t.next()" nows: !isWS(tokAt(t, tcur(t)))
+//@   at? "t.peek()" nows: !isWS(tokAt(t, tcur(t))) || incase("tokenNumber")
 //@   ensures closed: err == nil ==> tokAt(t, tcur(t) - 1).tokenType == tokenTagClose
 // C20: a tag node carries the position of the tag's name token; an unknown tag name is an error at that token
 //@   asserts anchor: err == nil ==> nposIs(r0, name.Pos)
@@ -639,6 +663,8 @@ package parse
 //@   loop 1 invariant true
 
 //@ func parse.(*Tree).parseUntilTag
+// (the body parser stops right after the NAME token of the tag that ended the body)
+//@   ensures last: err == nil ==> tokAt(t, tcur(t) - 1).tokenType == tokenName
 //@   requires tinv(t)
 //@   ensures wf: tinv(t) && tcur(t) >= old(tcur(t))
 //@   ensures bal: err == nil ==> len(t.blocks) == old(len(t.blocks))
@@ -651,6 +677,10 @@ package parse
 //@   loop 2 decreases tcur(t)
 
 //@ func parse.parseExtends
+// C14: inside delimiters a raw next() / peek() (one that does not skip blanks) never meets a blank - except where a
+// number literal looks for its fraction point (tokens that can merge)
+//@   at? "t.next()" nows: !isWS(tokAt(t, tcur(t)))
+//@   at? "t.peek()" nows: !isWS(tokAt(t, tcur(t))) || incase("tokenNumber")
 // C20 (rejection): a tag that parses without error has been closed: the last token consumed is its (end tag's) TAG_CLOSE
 //@   ensures closed: err == nil ==> tokAt(t, tcur(t) - 1).tokenType == tokenTagClose
 //@   ensures anchor: err == nil ==> nposIs(r0, start)
@@ -661,6 +691,10 @@ package parse
 //@   ensures ok: err == nil ==> r0 != nil && tcur(t) > old(tcur(t))
 
 //@ func parse.parseBlock
+// C14: inside delimiters a raw next() / peek() (one that does not skip blanks) never meets a blank - except where a
+// number literal looks for its fraction point (tokens that can merge)
+//@   at? "t.next()" nows: !isWS(tokAt(t, tcur(t)))
+//@   at? "t.peek()" nows: !isWS(tokAt(t, tcur(t))) || incase("tokenNumber")
 // C20 (rejection): a tag that parses without error has been closed: the last token consumed is its (end tag's) TAG_CLOSE
 //@   ensures closed: err == nil ==> tokAt(t, tcur(t) - 1).tokenType == tokenTagClose
 //@   ensures anchor: err == nil ==> nposIs(r0, start)
@@ -672,6 +706,10 @@ package parse
 //@   ensures ok: err == nil ==> r0 != nil && tcur(t) > old(tcur(t))
 
 //@ func parse.parseIf
+// C14: inside delimiters a raw next() / peek() (one that does not skip blanks) never meets a blank - except where a
+// number literal looks for its fraction point (tokens that can merge)
+//@   at? "t.next()" nows: !isWS(tokAt(t, tcur(t)))
+//@   at? "t.peek()" nows: !isWS(tokAt(t, tcur(t))) || incase("tokenNumber")
 // C06: the node is (condition, then-body, else-part) as parsed; the else-part is never nil
 //@   asserts shape: err == nil ==> istype(r0, "*IfNode") && unbox(r0, "*IfNode").Cond == cond && unbox(r0, "*IfNode").Body == box(body, "*BodyNode") && unbox(r0, "*IfNode").Else == box(els, "*BodyNode") && els != nil
 // C20 (rejection): a tag that parses without error has been closed: the last token consumed is its (end tag's) TAG_CLOSE
@@ -697,6 +735,10 @@ package parse
 //@   loop 1 decreases left(t)
 
 //@ func parse.parseFor
+// C14: inside delimiters a raw next() / peek() (one that does not skip blanks) never meets a blank - except where a
+// number literal looks for its fraction point (tokens that can merge)
+//@   at? "t.next()" nows: !isWS(tokAt(t, tcur(t)))
+//@   at? "t.peek()" nows: !isWS(tokAt(t, tcur(t))) || incase("tokenNumber")
 // C06: key/value names as written, the sequence expression, the else body; an inline condition wraps the body in an
 // if node without else-part (rendering only the elements that satisfy it)
 //@   asserts shape: err == nil ==> r0.Key == kn && r0.Val == vn && r0.X == expr && r0.Else == elseBody && (ifCond == nil ==> r0.Body == body) && (ifCond != nil ==> istype(r0.Body, "*IfNode") && unbox(r0.Body, "*IfNode").Cond == ifCond && unbox(r0.Body, "*IfNode").Else == nil)
@@ -710,6 +752,10 @@ package parse
 //@   ensures ok: err == nil ==> r0 != nil && tcur(t) > old(tcur(t))
 
 //@ func parse.parseInclude
+// C14: inside delimiters a raw next() / peek() (one that does not skip blanks) never meets a blank - except where a
+// number literal looks for its fraction point (tokens that can merge)
+//@   at? "t.next()" nows: !isWS(tokAt(t, tcur(t)))
+//@   at? "t.peek()" nows: !isWS(tokAt(t, tcur(t))) || incase("tokenNumber")
 // C20 (rejection): a tag that parses without error has been closed: the last token consumed is its (end tag's) TAG_CLOSE
 //@   ensures closed: err == nil ==> tokAt(t, tcur(t) - 1).tokenType == tokenTagClose
 //@   ensures anchor: err == nil ==> nposIs(r0, start)
@@ -720,6 +766,10 @@ package parse
 //@   ensures ok: err == nil ==> r0 != nil && tcur(t) > old(tcur(t))
 
 //@ func parse.parseEmbed
+// C14: inside delimiters a raw next() / peek() (one that does not skip blanks) never meets a blank - except where a
+// number literal looks for its fraction point (tokens that can merge)
+//@   at? "t.next()" nows: !isWS(tokAt(t, tcur(t)))
+//@   at? "t.peek()" nows: !isWS(tokAt(t, tcur(t))) || incase("tokenNumber")
 // C20 (rejection): a tag that parses without error has been closed: the last token consumed is its (end tag's) TAG_CLOSE
 //@   ensures closed: err == nil ==> tokAt(t, tcur(t) - 1).tokenType == tokenTagClose
 // C20: a block overridden inside an embed carries the position of its own block tag
@@ -735,6 +785,10 @@ package parse
 //@   loop 1 decreases left(t)
 
 //@ func parse.parseIncludeOrEmbed
+// C14: inside delimiters a raw next() / peek() (one that does not skip blanks) never meets a blank - except where a
+// number literal looks for its fraction point (tokens that can merge)
+//@   at? "t.next()" nows: !isWS(tokAt(t, tcur(t)))
+//@   at? "t.peek()" nows: !isWS(tokAt(t, tcur(t))) || incase("tokenNumber")
 //@   ensures closed: err == nil ==> tokAt(t, tcur(t) - 1).tokenType == tokenTagClose
 //@   requires tinv(t)
 //@   ensures wf: tinv(t) && tcur(t) >= old(tcur(t))
@@ -743,6 +797,10 @@ package parse
 //@   ensures ok: err == nil ==> good(expr) && tcur(t) > old(tcur(t))
 
 //@ func parse.parseUse
+// C14: inside delimiters a raw next() / peek() (one that does not skip blanks) never meets a blank - except where a
+// number literal looks for its fraction point (tokens that can merge)
+//@   at? "t.next()" nows: !isWS(tokAt(t, tcur(t)))
+//@   at? "t.peek()" nows: !isWS(tokAt(t, tcur(t))) || incase("tokenNumber")
 // C20 (rejection): a tag that parses without error has been closed: the last token consumed is its (end tag's) TAG_CLOSE
 //@   ensures closed: err == nil ==> tokAt(t, tcur(t) - 1).tokenType == tokenTagClose
 //@   ensures anchor: err == nil ==> nposIs(r0, start)
@@ -755,6 +813,10 @@ package parse
 //@   loop 1 decreases left(t)
 
 //@ func parse.parseSet
+// C14: inside delimiters a raw next() / peek() (one that does not skip blanks) never meets a blank - except where a
+// number literal looks for its fraction point (tokens that can merge)
+//@   at? "t.next()" nows: !isWS(tokAt(t, tcur(t)))
+//@   at? "t.peek()" nows: !isWS(tokAt(t, tcur(t))) || incase("tokenNumber")
 // C20 (rejection): a tag that parses without error has been closed: the last token consumed is its (end tag's) TAG_CLOSE
 //@   ensures closed: err == nil ==> tokAt(t, tcur(t) - 1).tokenType == tokenTagClose
 //@   ensures anchor: err == nil ==> nposIs(r0, start)
@@ -765,6 +827,10 @@ package parse
 //@   ensures ok: err == nil ==> r0 != nil && tcur(t) > old(tcur(t))
 
 //@ func parse.parseDo
+// C14: inside delimiters a raw next() / peek() (one that does not skip blanks) never meets a blank - except where a
+// number literal looks for its fraction point (tokens that can merge)
+//@   at? "t.next()" nows: !isWS(tokAt(t, tcur(t)))
+//@   at? "t.peek()" nows: !isWS(tokAt(t, tcur(t))) || incase("tokenNumber")
 // C20 (rejection): a tag that parses without error has been closed: the last token consumed is its (end tag's) TAG_CLOSE
 //@   ensures closed: err == nil ==> tokAt(t, tcur(t) - 1).tokenType == tokenTagClose
 //@   ensures anchor: err == nil ==> nposIs(r0, start)
@@ -775,6 +841,10 @@ package parse
 //@   ensures ok: err == nil ==> r0 != nil && tcur(t) > old(tcur(t))
 
 //@ func parse.parseFilter
+// C14: inside delimiters a raw next() / peek() (one that does not skip blanks) never meets a blank - except where a
+// number literal looks for its fraction point (tokens that can merge)
+//@   at? "t.next()" nows: !isWS(tokAt(t, tcur(t)))
+//@   at? "t.peek()" nows: !isWS(tokAt(t, tcur(t))) || incase("tokenNumber")
 // C20 (rejection): a tag that parses without error has been closed: the last token consumed is its (end tag's) TAG_CLOSE
 //@   ensures closed: err == nil ==> tokAt(t, tcur(t) - 1).tokenType == tokenTagClose
 //@   ensures anchor: err == nil ==> nposIs(r0, start)
@@ -787,6 +857,10 @@ package parse
 //@   loop 1 decreases left(t)
 
 //@ func parse.parseMacro
+// C14: inside delimiters a raw next() / peek() (one that does not skip blanks) never meets a blank - except where a
+// number literal looks for its fraction point (tokens that can merge)
+//@   at? "t.next()" nows: !isWS(tokAt(t, tcur(t)))
+//@   at? "t.peek()" nows: !isWS(tokAt(t, tcur(t))) || incase("tokenNumber")
 // C20 (rejection): a tag that parses without error has been closed: the last token consumed is its (end tag's) TAG_CLOSE
 //@   ensures closed: err == nil ==> tokAt(t, tcur(t) - 1).tokenType == tokenTagClose
 //@   ensures anchor: err == nil ==> nposIs(r0, start)
@@ -799,6 +873,10 @@ package parse
 //@   loop 1 decreases left(t)
 
 //@ func parse.parseImport
+// C14: inside delimiters a raw next() / peek() (one that does not skip blanks) never meets a blank - except where a
+// number literal looks for its fraction point (tokens that can merge)
+//@   at? "t.next()" nows: !isWS(tokAt(t, tcur(t)))
+//@   at? "t.peek()" nows: !isWS(tokAt(t, tcur(t))) || incase("tokenNumber")
 // C20 (rejection): a tag that parses without error has been closed: the last token consumed is its (end tag's) TAG_CLOSE
 //@   ensures closed: err == nil ==> tokAt(t, tcur(t) - 1).tokenType == tokenTagClose
 //@   ensures anchor: err == nil ==> nposIs(r0, start)
@@ -809,6 +887,10 @@ package parse
 //@   ensures ok: err == nil ==> r0 != nil && tcur(t) > old(tcur(t))
 
 //@ func parse.parseFrom
+// C14: inside delimiters a raw next() / peek() (one that does not skip blanks) never meets a blank - except where a
+// number literal looks for its fraction point (tokens that can merge)
+//@   at? "t.next()" nows: !isWS(tokAt(t, tcur(t)))
+//@   at? "t.peek()" nows: !isWS(tokAt(t, tcur(t))) || incase("tokenNumber")
 // C20 (rejection): a tag that parses without error has been closed: the last token consumed is its (end tag's) TAG_CLOSE
 //@   ensures closed: err == nil ==> tokAt(t, tcur(t) - 1).tokenType == tokenTagClose
 //@   ensures anchor: err == nil ==> nposIs(r0, start)
